@@ -27,19 +27,19 @@ type FuncAn struct {
 
 	canon map[ssa.Value]ssa.Value // load -> representative value (memory-versioned load numbering)
 
-	in        map[*ssa.BasicBlock]*State
-	out       map[*ssa.BasicBlock]*State
-	Converged bool
-	rpo       []*ssa.BasicBlock
-	entry     *State // precondition facts (roots: none)
-	EntryNote []string // rendered entry facts
+	in         map[*ssa.BasicBlock]*State
+	out        map[*ssa.BasicBlock]*State
+	Converged  bool
+	rpo        []*ssa.BasicBlock
+	entry      *State   // precondition facts (roots: none)
+	EntryNote  []string // rendered entry facts
 	CountNotes []string // paired-count lemmas used
 
 	elemLenMemo map[ssa.Value]*Lin
 	inited      map[*Atom]bool
 	inited2     map[*Atom]bool
 	provers     map[*State]*prover
-	atomLoad    map[*Atom]*ssa.UnOp // load atoms (and lengths of loads) -> the representative load
+	atomLoad    map[*Atom]*ssa.UnOp                // load atoms (and lengths of loads) -> the representative load
 	loadSnap    map[*ssa.UnOp]map[string]ssa.Value // struct-typed load -> locations available at the load
 	callSnap    map[*ssa.Call]map[string]ssa.Value // static call -> locations available right before the call
 	prods, quos []opRec
@@ -51,11 +51,11 @@ type opRec struct {
 }
 
 type condLemma struct {
-	pre    []Lin
-	okCall *ssa.Call // additionally requires: this call is known to have returned a nil error
+	pre     []Lin
+	okCall  *ssa.Call // additionally requires: this call is known to have returned a nil error
 	preLits []instLit // additionally requires: these instantiated callee literals hold
-	post   []Lin
-	why    string
+	post    []Lin
+	why     string
 }
 
 func (a *FuncAn) atom(key, name string, nonneg bool) *Atom {
@@ -632,8 +632,8 @@ func (a *FuncAn) quoConst(def ssa.Instruction, X Lin, k int64, bits int, uns boo
 	}
 	at := a.composite(key, fmt.Sprintf("(%s)/%d", X, k), false, def, X)
 	q := AtomLin(at)
-	lo := []Lin{Add(X, Scale(q, k), -1)}                      // X - k*q >= 0
-	hi := []Lin{Add(Scale(q, k), X, -1).plus(k - 1)}          // k*q + k-1 - X >= 0
+	lo := []Lin{Add(X, Scale(q, k), -1)}             // X - k*q >= 0
+	hi := []Lin{Add(Scale(q, k), X, -1).plus(k - 1)} // k*q + k-1 - X >= 0
 	if X.synNonNeg() {
 		at.NonNeg = true
 		a.lemma(lo[0])
